@@ -34,7 +34,7 @@ RULE = (
     "multiset (task, cron, time, args, kwargs) of get_schedules() equals the model's cron/time entries of own-broker "
     "tasks; every firing of a time-only schedule removes exactly one entry whose time equals the fired one (if any is "
     "left) and changes nothing else; firing cron / cron+time entries removes nothing; each firing sends exactly one "
-    "message with the entry's args. Non-trivial: >=2 entries share a time or a task and >=1 is fired."
+    "message with the entry's args. (3) 'loop_sources': the real scheduler loop with 2-3 sources whose get_schedules() answers after different virtual delays, some with a cancelling pre_send: every hook call must concern a schedule of that very source, every sent schedule has pre_send before and post_send after it on its own source, cancelled ones are never sent. Non-trivial: >=2 entries share a time or a task and >=1 is fired; a loop case in which an earlier source answers later than a later one."
 )
 ASSUMPTIONS = ["the global task registry is cleared before and after every case",
                "which of several entries with equal time is removed is not prescribed by the statement: any one of them is accepted"]
@@ -412,3 +412,89 @@ SELFTEST_CASES = [
                                                                                               {"kind": "time", "cron": "* * * * *", "t": 0, "tag": 2, "extra": True}]}]},
                                      {"op": "list"}, {"op": "fire", "k": 1}, {"op": "fire", "k": 1}]},
 ]
+
+
+# ---------------------------------------------------------------- part 3: the callbacks of the RIGHT source, through the real loop
+#
+# on_ready gets the source together with the schedule from the scheduler loop.  With several sources (answering their
+# listing at different speeds) every schedule must be announced to, cancelled by and reported back to the source that
+# listed it.
+
+from vt.harness import sched as _sched
+from vt.harness import clock as _clock
+
+_SEC = 10**6
+_MIN = 60 * _SEC
+
+
+def loop_cases() -> Any:
+    def fin(d: Dict[str, Any]) -> Dict[str, Any]:
+        base = d["base"] // _MIN * _MIN + d["bsec"] * _SEC
+        sources = []
+        for si, (lat, shots, ncron, cancel_first) in enumerate(d["sources"]):
+            ents: List[Dict[str, Any]] = [{"id": f"c{si}_{j}", "cron": "* * * * *", "offset": None, "add_at": 0, "remove_at": None} for j in range(ncron)]
+            for j, off in enumerate(shots):
+                ents.append({"id": f"o{si}_{j}", "t_off_us": off, "naive": True, "add_at": 0, "remove_at": None})
+            cancel = [ents[0]["id"]] if cancel_first and ents else []
+            sources.append({"kind": "scripted", "entries": ents, "fail_polls": [], "list_latency": lat, "cancel": cancel})
+        return {"loop": True, "base_us": base, "horizon_min": 2, "sources": sources, "latencies": [0.0], "kick_fail": []}
+
+    src = st.tuples(st.sampled_from([0.0, 0.0, 0.05, 0.2, 1.5]), st.lists(st.sampled_from([-30 * _SEC, 0, 20 * _SEC, 61 * _SEC, 90 * _SEC]), max_size=2),
+                    st.integers(0, 2), st.booleans())
+    return st.fixed_dictionaries({
+        "base": st.integers(_clock.to_us(dtm.datetime(2024, 1, 1, tzinfo=_clock.UTC)), _clock.to_us(dtm.datetime(2025, 1, 1, tzinfo=_clock.UTC))),
+        "bsec": st.sampled_from([0, 10, 30, 59]),
+        "sources": st.lists(src, min_size=2, max_size=3),
+    }).map(fin)
+
+
+def run_loop_case(case: Dict[str, Any]) -> Outcome:
+    out = Outcome()
+    out.clauses_checked = ["C16.a", "C16.b"]
+    res = _sched.run_sched(case)
+    if res["crashed"] or res["deadlock"]:
+        out.add("C16.a", f"scheduler loop stopped: {res['loop_exc']}")
+    owner = {e["id"]: f"s{si}" for si, s in enumerate(case["sources"]) for e in s["entries"]}
+    cancelled = {i for s in case["sources"] for i in s.get("cancel", ())}
+    hooks = res.get("hooks", {})
+    for name, hs in hooks.items():
+        for t, hook, sid in hs:
+            if owner.get(sid) != name:
+                out.add("C16.a", f"{hook} of source {name} was called for schedule {sid}, which is listed by source {owner.get(sid)}")
+    kicks = res.get("kicks", [])
+    for k in kicks:
+        sid = k["tag"]
+        if sid in cancelled:
+            out.add("C16.a", f"schedule {sid} is cancelled by its source's pre_send but was sent at {k['t']}")
+            continue
+        own = hooks.get(owner.get(sid, "?"), [])
+        pre = [h for h in own if h[1] == "pre_send" and h[2] == sid and h[0] <= k["t"]]
+        post = [h for h in own if h[1] == "post_send" and h[2] == sid and h[0] >= k["t"]]
+        if not pre:
+            out.add("C16.a", f"schedule {sid} was sent without pre_send of its own source {owner.get(sid)} before it")
+        if k["ok"] and not post:
+            out.add("C16.a", f"schedule {sid} was sent but post_send of its own source {owner.get(sid)} was not called")
+    for sid in cancelled:
+        if any(h[1] == "post_send" and h[2] == sid for hs in hooks.values() for h in hs):
+            out.add("C16.a", f"post_send was called for the cancelled schedule {sid}")
+    lats = [s.get("list_latency", 0) for s in case["sources"]]
+    out.nontrivial = bool(kicks and any(a > b for a, b in zip(lats, lats[1:])))
+    out.classes = ["loop"] + (["earlier_source_answers_later"] if any(a > b for a, b in zip(lats, lats[1:])) else []) + (["cancelling_source"] if cancelled else [])
+    out.trace = {"kicks": [[k["tag"], k["ok"]] for k in kicks[:12]], "hooks": {n: [[h[1], h[2]] for h in hs[:8]] for n, hs in hooks.items()}}
+    return out
+
+
+_parts12 = parts
+_run12 = run_case
+
+
+def parts(tier: str) -> List[Part]:  # type: ignore[no-redef]
+    ps = _parts12(tier)
+    ps.append(Part("loop_sources", "given", shards=2, examples=3000 if tier == "thorough" else 200, strategy=loop_cases, soft_deadline_s=600))
+    return ps
+
+
+def run_case(case: Dict[str, Any]) -> Outcome:  # type: ignore[no-redef]
+    if case.get("loop"):
+        return run_loop_case(case)
+    return _run12(case)
